@@ -100,7 +100,7 @@ func nontrivial(o op, m *model) bool {
 }
 
 func run(c *vf.Ctx) {
-	nh := c.N(80, 450)
+	nh := c.N(60, 450)
 	c.Set("histories", nh)
 	workers := runtime.NumCPU()
 	c.Parallel(nh, workers, 5000, func(i int, r *rand.Rand) {
